@@ -457,6 +457,9 @@ class Solver(object):
         # integrate with.
         self.dt = self._get_timestep()
 
+        # The very first step may also exceed a requested output time.
+        self._adjust_timestep_for_output_times()
+
         while (self.tf - self.t) > self._epsilon and \
               (self.count < self.max_steps):
 
@@ -707,7 +710,19 @@ class Solver(object):
 
         # Consider the other cases if user has requested output at a specified
         # time.
+        if self._adjust_timestep_for_output_times():
+            dump = True
 
+        if dump:
+            self.dump_output()
+            self.barrier()
+
+    def _adjust_timestep_for_output_times(self):
+        """Adjust `dt` to land on the next requested output time, if any.
+
+        Returns True if the current time is one of the requested output times.
+        """
+        dump = False
         output_at_times = self.output_at_times
         dt = self.dt
 
@@ -740,9 +755,7 @@ class Solver(object):
                     self._prev_dt = dt
                     self.dt = float(output_time - self.t)
 
-        if dump:
-            self.dump_output()
-            self.barrier()
+        return dump
 
     def _get_solver_data(self):
         if self._prev_dt is not None:
